@@ -5,6 +5,9 @@
 package simsync
 
 import (
+	"runtime"
+	"strconv"
+	"strings"
 	"sync"
 
 	"verifsim/sim"
@@ -33,7 +36,7 @@ type RWMutex struct {
 }
 
 func (m *RWMutex) Lock() {
-	sim.Yield(sim.ClassLock, "Lock")
+	sim.Yield(sim.ClassLock, lbl("Lock"))
 	m.mu.Lock()
 	if !m.writer && m.readers == 0 && len(m.q) == 0 {
 		m.writer = true
@@ -47,7 +50,7 @@ func (m *RWMutex) Lock() {
 }
 
 func (m *RWMutex) TryLock() bool {
-	sim.Yield(sim.ClassLock, "TryLock")
+	sim.Yield(sim.ClassLock, lbl("TryLock"))
 	m.mu.Lock()
 	defer m.mu.Unlock()
 	if !m.writer && m.readers == 0 && len(m.q) == 0 {
@@ -69,7 +72,7 @@ func (m *RWMutex) Unlock() {
 }
 
 func (m *RWMutex) RLock() {
-	sim.Yield(sim.ClassLock, "RLock")
+	sim.Yield(sim.ClassLock, lbl("RLock"))
 	m.mu.Lock()
 	if !m.writer && len(m.q) == 0 {
 		m.readers++
@@ -83,7 +86,7 @@ func (m *RWMutex) RLock() {
 }
 
 func (m *RWMutex) TryRLock() bool {
-	sim.Yield(sim.ClassLock, "TryRLock")
+	sim.Yield(sim.ClassLock, lbl("TryRLock"))
 	m.mu.Lock()
 	defer m.mu.Unlock()
 	if !m.writer && len(m.q) == 0 {
@@ -177,4 +180,26 @@ func OnceValues[T1, T2 any](f func() (T1, T2)) func() (T1, T2) {
 		v2 T2
 	)
 	return func() (T1, T2) { o.Do(func() { v1, v2 = f() }); return v1, v2 }
+}
+
+// lbl adds the caller's position to a lock label when the run keeps a trace (debugging
+// aid only: labels never influence decisions).
+func lbl(op string) string {
+	if s := sim.Current(); s == nil || s.KeepLog == 0 {
+		return op
+	}
+	for skip := 2; skip < 6; skip++ {
+		_, file, line, ok := runtime.Caller(skip)
+		if !ok {
+			break
+		}
+		if strings.Contains(file, "/simsync/") {
+			continue
+		}
+		if i := strings.LastIndexByte(file, '/'); i >= 0 {
+			file = file[i+1:]
+		}
+		return op + "@" + file + ":" + strconv.Itoa(line)
+	}
+	return op
 }
